@@ -204,6 +204,13 @@ Theorem gen_new_noconform_agrees : forall u l G, wf_universe u = true -> mkgroup
 Proof. exact gen_group_noconform_agrees. Qed.
 Print Assumptions gen_new_noconform_agrees.
 
+(* `_conform=False` on ANY closed set of known names builds the group of that set: skipping the expansion where the
+   argument is already closed (as a union / intersection of groups is) changes nothing *)
+Theorem gen_new_noconform_closed : forall u T, wf_universe u = true -> closed u T -> incl T (names_of u) ->
+  gen_group u T false = mkgroup u T.
+Proof. exact gen_group_noconform_closed. Qed.
+Print Assumptions gen_new_noconform_closed.
+
 Theorem gen_lookup_order_agrees : forall u req elems, wf_universe u = true -> incl req (names_of u) ->
   gen_lookup_order u req elems = lookup_order u req elems.
 Proof. exact gen_lookup_agrees. Qed.
